@@ -669,7 +669,7 @@ def aggregate_graph_cases(ctx, b, variants=2):
             return 'ok %d %d %s' % (m.shape[0], m.shape[1], enc_mat(m.toarray()))
         impl = _call0(f, errors=(ValueError, IndexError, TypeError))
         spec = None
-        if impl.startswith('ok '):
+        if impl.startswith('ok ') and impl.split(' ')[3] != '-':     # an empty result has nothing to check
             eff_c = lc if 'labels_col' in kw else lr
             t = impl.split(' ')
             spec = 'c05.spec_aggregate_graph %s %s %s %s %s %s %s' % (g, enc_list(lr), enc_list(eff_c), t[1], t[2], t[3], TOL)
@@ -750,7 +750,7 @@ def aggregate_graph_replay(ctx, d):
         return 'ok %d %d %s' % (m.shape[0], m.shape[1], enc_mat(m.toarray()))
     impl = _call0(f, errors=(ValueError, IndexError, TypeError))
     spec = None
-    if impl.startswith('ok '):
+    if impl.startswith('ok ') and impl.split(' ')[3] != '-':
         lr = kw.get('labels_row', kw.get('labels'))
         lc = kw.get('labels_col', lr)
         t = impl.split(' ')
